@@ -37,6 +37,15 @@ CLAIMED = {
          "writes errcode/errmsg from server data. Necessary conditions; the suite contains no NO or BYE reply at all.",
     technique="finite-domain path enumeration + regex language inclusion (DFA) + nullable-group analysis + CFG dominance",
     ref="4/C09"),
+ "C08": dict(
+    text="W1 sendall is called only by the command sender, every line ends in CRLF and the argument list reaches the wire only through the "
+         "formatter; W2 every quoting branch of the formatter escapes backslash before double quote; W3 unquoted pass-through happens only under "
+         "an isinstance test against a marker type that only the literal builder constructs (never by content); W4 the literal template announces "
+         "len() of the very bytes that follow, non-synchronising, CRLF-separated, utf-8; W5 each public operation sends exactly its RFC 5804 verb as "
+         "a constant, at most once per path, names as utf-8 bytes, sizes as int, raw channels carry constants/base64 only; W6 CR, LF and NUL are "
+         "excluded before the quoting branch. Necessary conditions for every argument value; decoding by a real server is not decided.",
+    technique="effect ownership + AST template matching of the formatter/literal builder + CFG edge-fact guards + finite-domain path enumeration",
+    ref="4/C08"),
 }
 NA = {}
 
